@@ -732,7 +732,7 @@ def main(ctx):
                xt[0] - 1.0, xt[0] - 1000.0, xt[-1] + 7.0, xt[-1] + 1e4]
         for a in xt[1:-1]:
             us += [float(np.nextafter(a, -np.inf)), float(np.nextafter(a, np.inf))]
-        return tuple(us)
+        return tuple(dict.fromkeys(us))            # distinct, order kept
 
     unitsi = []
     for n in range(2, NMAX + 1):
@@ -749,6 +749,7 @@ def main(ctx):
             vsets = [tuple(a * a for a in xt), tuple(1 - a for a in xt), tuple(i % 2 for i in range(len(xt)))]
         else:
             vsets = valuesets(xt)
+        vsets = list(dict.fromkeys(vsets))                 # e.g. x^2 == 0,1 pattern on (0,1)
         us = queries(tuple(float(a) for a in xt))
         for vt in vsets:
             yield (cont, xt, vt, us, False)
